@@ -75,7 +75,7 @@ def main(ctx, replay=None):
         sys.exit(1 if bad else 0)
 
     quick = ctx.tier == "quick"
-    cases = gen_cases(ctx, 150 if quick else 6000)
+    cases = gen_cases(ctx, 380 if quick else 6000)
     bad, cov, outs = metalib.run_cases(ctx, binpath, cases)
 
     concrete, known, drift = [], [], []
